@@ -125,12 +125,22 @@ func (vals *ValidatorSet) IncrementProposerPriority(times int32) {
 	// re-normalizing priorities, i.e., rescale all priorities by multiplying with:
 	//  2*totalVotingPower/(maxPriority - minPriority)
 	diffMax := PriorityWindowSizeFactor * vals.TotalVotingPower()
-	vals.RescalePriorities(diffMax)
-	vals.shiftByAvgProposerPriority()
 
 	var proposer *Validator
 	// Call IncrementProposerPriority(1) times times.
 	for i := int32(0); i < times; i++ {
+		// Every single round re-normalizes before electing. The distance between
+		// priorities can grow beyond diffMax while rounds are being run, so the
+		// check has to be repeated for each round; otherwise incrementing by
+		// `times` at once would not give the same priorities (and eventually not
+		// the same proposers) as `times` increments by one, which is how the set
+		// evolves from height to height and from round to round.
+		// Centering is only needed on entry and after a rescale: a round leaves
+		// the sum of the priorities unchanged.
+		if i == 0 || computeMaxMinPriorityDiff(vals) > diffMax {
+			vals.RescalePriorities(diffMax)
+			vals.shiftByAvgProposerPriority()
+		}
 		proposer = vals.incrementProposerPriority()
 	}
 
